@@ -1,6 +1,7 @@
 package main
 
 import (
+	"github.com/polydawn/refmt/misc"
 	"context"
 	"fmt"
 	"os"
@@ -255,14 +256,63 @@ func packenvExec(c *Ctx, op string) {
 // transitions of the zones the CLI variants run under
 var dstInstants = []int64{1793511000, 1793514600, 1772953199, 1772953200, 1792888200, 1792891800, 1774746000, 1775313900, 1775315700, 1793505600, 1793509200, 562138200, 1162081800}
 
+// packenvBigDir: recipe "packenv-bigdir <n>" — one directory with n entries (beyond any listing batch size), materialised
+// on the scratch filesystem in ascending creation order and on tmpfs in descending order: the listing order the kernel
+// gives differs, the wareID may not — and it is the reference tree hash of the whole fileset.
+func packenvBigDir(c *Ctx, op string) {
+	c.Begin(op)
+	var n int
+	fmt.Sscan(strings.Fields(op)[1], &n)
+	caseCounter++
+	base := filepath.Join(c.Work, fmt.Sprintf("pb%d", caseCounter))
+	shm := filepath.Join("/dev/shm", fmt.Sprintf("verif-pb-%d-%d", os.Getpid(), caseCounter))
+	defer rmrf(base)
+	defer rmrf(shm)
+	fsx := Fileset{{Name: "", Kind: 'd', Perms: 0755, Uid: 3, Gid: 4, Sec: 1e9}, {Name: "big", Kind: 'd', Perms: 0755, Uid: 3, Gid: 4, Sec: 1e9}, {Name: "zz", Kind: 'f', Perms: 0644, Uid: 3, Gid: 4, Sec: 1e9, Content: []byte("z")}}
+	for i := 0; i < n; i++ {
+		fsx = append(fsx, Entry{Name: fmt.Sprintf("big/f%05d", i), Kind: 'f', Perms: 0644, Uid: 3, Gid: 4, Sec: 1e9})
+	}
+	var desc []int // every entry but the root, the children of `big` in descending order
+	for i := len(fsx) - 1; i >= 1; i-- {
+		desc = append(desc, i)
+	}
+	a, b := filepath.Join(base, "asc"), filepath.Join(shm, "desc")
+	os.MkdirAll(base, 0755)
+	os.MkdirAll(shm, 0755)
+	if Materialize(fsx, a, nil) != nil || Materialize(fsx, b, desc) != nil {
+		c.EmitR(op, "skip", "skip")
+		return
+	}
+	pf := api.MustParseFilesetPackFilter(losslessPackStr)
+	pk := func(dir string) string {
+		id, err, pan := safeCall(func() (api.WareID, error) { return tartrans.Pack(context.Background(), "tar", dir, pf, "", rio.Monitor{}) })
+		return resTok(id, err, pan)
+	}
+	ga, gb := pk(a), pk(b)
+	want := "ok " + misc.Base58Encode(RefTreeHash(fsx, sha384))
+	c.H("variant:bigdir")
+	if ga != gb {
+		c.PropFail("pack-env", fmt.Sprintf("a fileset with a directory of %d entries packs to %s on the scratch filesystem and to %s on tmpfs (created in the opposite order)", n, ga, gb), op)
+	} else if ga != want {
+		c.PropFail("pack-env", fmt.Sprintf("a fileset with a directory of %d entries packs to %s; the reference tree hash of the whole fileset is %s", n, ga, want), op)
+	}
+	c.EmitR(op, "skip", "skip")
+}
+
 func packenvEngine(c *Ctx) {
 	if ls := replayLines(); ls != nil {
 		for _, op := range ls {
-			if strings.HasPrefix(op, "packenv ") && !strings.Contains(op, " #") {
+			if strings.HasPrefix(op, "packenv-bigdir ") {
+				packenvBigDir(c, op)
+			} else if strings.HasPrefix(op, "packenv ") && !strings.Contains(op, " #") {
 				packenvExec(c, op)
 			}
 		}
 		return
+	}
+	packenvBigDir(c, "packenv-bigdir 5000")
+	if c.Tier == "thorough" {
+		packenvBigDir(c, "packenv-bigdir 70000")
 	}
 	rounds, nSets := 3, 6
 	if c.Tier == "thorough" {
